@@ -9,7 +9,8 @@ ICoefs == {-7, -3, -1, 0, 1, 2, 7}
 Lists(C, n) == UNION {[1..k -> C] : k \in 0..n}
 ISmall == Lists({-2, -1, 0, 1, 3}, 2)
 IBig == Lists(ICoefs, IF Thorough THEN 4 ELSE 3) \cup {<<100, -99, 0, 1>>, <<0, 0, 0, 0, 5>>, <<1, 1, 1, 1, 1, 1>>, <<-7, -7, -7>>, <<7, 7, 7>>}
-IPairs == (ISmall \X ISmall) \cup RandomSubset(IF Thorough THEN 12000 ELSE 1500, IBig \X IBig)
+IBigS == IF Cardinality(IBig) <= 700 THEN IBig ELSE RandomSubset(700, IBig)      \* (the product below must stay under TLC's set-size limit)
+IPairs == (ISmall \X ISmall) \cup RandomSubset(IF Thorough THEN 12000 ELSE 1500, IBigS \X IBigS)
            \cup {<<p, p>> : p \in RandomSubset(200, IBig)}
 IntT(s) == [i \in 1..Len(s) |-> TInt(s[i])]
 ICases == {[op |-> "upoly", kind |-> "UInt", a |-> IntT(p[1]), b |-> IntT(p[2]), k |-> 3,
